@@ -65,6 +65,7 @@ pub enum Case {
     C10W(crate::prop::c10::WriterCase),
     C09(crate::prop::c09::AgreeCase),
     C09B(crate::prop::c09::BorrowCase),
+    C11(crate::prop::c11::StreamCase),
 }
 
 #[derive(Clone, Debug, Serialize, Deserialize)]
